@@ -239,6 +239,9 @@ struct ilu0 {
         return ilu->bytes();
     }
 
+#ifdef AMGCL_VERIF
+    friend struct ::amgcl::verif::access;
+#endif
     private:
         std::shared_ptr<ilu_solve> ilu;
 
